@@ -38,6 +38,8 @@ func (vc *FuncVC) reset() {
 	vc.writesSeen = map[string]bool{}
 	vc.usedContracts = map[string]bool{}
 	vc.subSeen = map[string]bool{}
+	vc.freshList = nil
+	vc.entryRefs = nil
 	vc.counters = map[string]int{}
 	vc.lastCallbacks = nil
 	vc.notes = nil
@@ -267,8 +269,10 @@ func (vc *FuncVC) execute() {
 		switch p.Type().Underlying().(type) {
 		case *types.Pointer, *types.Map:
 			vc.emit("(assert (or (= %s 0) (select %s %s)))", t.S, al.S, t.S)
+			vc.entryRefs = append(vc.entryRefs, t)
 		case *types.Slice:
 			vc.emit("(assert (or (= (s!arr %s) 0) (select %s (s!arr %s))))", t.S, al.S, t.S)
+			vc.entryRefs = append(vc.entryRefs, app("Int", "s!arr", t))
 		}
 	}
 	for _, fv := range fn.FreeVars {
@@ -554,6 +558,11 @@ func (vc *FuncVC) loopHead(li *loopInfo, s *State) {
 		li.frameKeys = frameKeys
 	}
 	// havoc what the loop writes
+	type hv struct {
+		k string
+		t Term
+	}
+	var havocked []hv
 	if vc.dry {
 		li.writes = map[string]bool{}
 	} else {
@@ -574,10 +583,22 @@ func (vc *FuncVC) loopHead(li *loopInfo, s *State) {
 			nv.GoT = old.GoT
 			s.vars[k] = nv
 			if k == "alloc" {
-				// allocation only grows
-				vc.emit("(assert (forall ((r!q Int)) (! (=> (select %s r!q) (select %s r!q)) :pattern ((select %s r!q)))))", old.S, nv.S, nv.S)
+				// allocation only grows: stated pointwise (quantifier-free) for every reference this
+				// invocation has allocated so far and for what its parameters refer to
+				for _, r := range vc.freshList {
+					vc.emit("(assert (=> (select %s %s) (select %s %s)))", old.S, r.S, nv.S, r.S)
+				}
+				for _, r := range vc.entryRefs {
+					vc.emit("(assert (=> (select %s %s) (select %s %s)))", old.S, r.S, nv.S, r.S)
+				}
+				if vc.useQuantSlices {
+					vc.emit("(assert (forall ((r!q Int)) (! (=> (select %s r!q) (select %s r!q)) :pattern ((select %s r!q)))))", old.S, nv.S, nv.S)
+				}
 			}
-			vc.localTypeFacts(s, k, nv)
+			havocked = append(havocked, hv{k, nv})
+		}
+		for _, h := range havocked {
+			vc.localTypeFacts(s, h.k, h.t)
 		}
 	}
 	// cells of captured locals written in the loop: havoc exactly those cells
@@ -874,6 +895,18 @@ func (vc *FuncVC) typeFacts(pc Term, t Term, gt types.Type) {
 }
 
 func (vc *FuncVC) localTypeFacts(s *State, key string, t Term) {
+	// a reference held in a local variable refers to something that has been allocated
+	if strings.HasPrefix(key, "L:") && vc.useQuantSlices {
+		al := vc.get(s, "alloc", "(Array Int Bool)")
+		if t.Sort == "Slice" {
+			vc.assume(s.pc, T("Bool", fmt.Sprintf("(or (= (s!arr %s) 0) (select %s (s!arr %s)))", t.S, al.S, t.S)))
+		} else if t.Sort == "Int" && t.GoT != nil {
+			switch t.GoT.Underlying().(type) {
+			case *types.Pointer, *types.Map:
+				vc.assume(s.pc, T("Bool", fmt.Sprintf("(or (= %s 0) (select %s %s))", t.S, al.S, t.S)))
+			}
+		}
+	}
 	if t.GoT != nil {
 		vc.typeFacts(s.pc, t, t.GoT)
 	} else if t.Sort == "Slice" {
